@@ -26,7 +26,7 @@
    "deferred"; ThreadedHistory's thread step / consumer chunk / append are
    atomic, and the thread's snapshot is taken when load() first runs). *)
 From Coq Require Import ZArith List Bool.
-From PTK Require Import Lib.Sx Lib.Py Model.Document Model.BufferEdit.
+From PTK Require Import Lib.Sx Lib.Py Model.Document Model.BufferEdit Lib.C14_Handlers Gen.C14_Handlers.
 Import ListNotations.
 Open Scope Z_scope.
 
@@ -557,34 +557,73 @@ Fixpoint run_validator (rules : list (vcond * vpos)) (t : str) (cp : Z) : option
        result = int(self._arg or 1)
        if int(result) >= 1000000: result = 1                                  *)
 Inductive karg := ANone | AMinus | ANum (z : Z).
+(* the constants are regenerated from the source of KeyPressEvent.arg
+   (Gen/C14_Handlers.v; as of 7b1fd9f: "-" -> -1, none -> 1, more than 7
+   significant digits -> -1 / 1 by sign, a million or more -> 1) *)
 Definition event_arg (a : karg) : Z :=
   match a with
-  | ANone => 1
-  | AMinus => -1
-  | ANum z => if 1000000 <=? z then 1 else z
+  | ANone => arg_default
+  | AMinus => arg_minus
+  | ANum z =>
+      (* more than arg_digits significant digits: decided on their number *)
+      if 10 ^ arg_digits <=? Z.abs z then (if z <? 0 then arg_long_neg else arg_long_pos)
+      else if arg_limit <=? z then arg_over else z
   end.
 
-(* The Buffer call each history-related key handler makes, as an operation:
-   named_commands previous-history (1), next-history (2), beginning-of-history
-   (3), end-of-history (4); vi navigation mode k (5), j (6), <n>G (7, bound
-   only when an argument is present), up/c-p (8), down/c-n (9); emacs c-p (10),
-   c-n (11: auto_down() - the argument is ignored); basic up (12), down (13). *)
+(* The history-related key handlers.  What each one does is NOT written here:
+   Gen/C14_Handlers.v ([handlers]) is regenerated on every run from the source
+   of the handler functions of /repo (gen/gen_t_c14.py, AST translation, fail
+   closed): named_commands previous-history (1), next-history (2),
+   beginning-of-history (3), end-of-history (4); vi navigation mode k (5), j (6),
+   <n>G (7), up/c-p (8), down/c-n (9); emacs c-p (10), c-n (11); basic up (12),
+   down (13).  Here: the meaning of the call language as operations of the
+   model. *)
+Definition count_of (c : hcount) (a : karg) : option Z :=
+  match c with
+  | CArg k => Some (event_arg a - k)
+  | CConst z => Some z
+  | CLast => None       (* len(_working_lines) - 1: only inside end-of-history *)
+  end.
+
+Definition call_op (k : hcall) (a : karg) : option op :=
+  match k with
+  | HBack c => match count_of c a with Some n => Some (OBack n) | None => None end
+  | HFwd c => match count_of c a with Some n => Some (OFwd n) | None => None end
+  | HGoto c => match count_of c a with Some n => Some (OGoto n) | None => None end
+  | HAutoUp c g => match count_of c a with Some n => Some (OAutoUp n g) | None => None end
+  | HAutoDown c g => match count_of c a with Some n => Some (OAutoDown n g) | None => None end
+  end.
+
+(* a body is one call, or exactly the two calls of end-of-history
+   (history_forward(count=10**100); go_to_history(len(_working_lines) - 1)),
+   which is the operation OEnd; anything else is not modelled (bad case) *)
+Definition is_end_of_history (cs : list hcall) : bool :=
+  match cs with
+  | [HFwd (CConst z); HGoto CLast] => z =? 10 ^ 100
+  | _ => false
+  end.
+Definition calls_op (cs : list hcall) (a : karg) : option op :=
+  if is_end_of_history cs then Some OEnd
+  else match cs with
+       | [k] => call_op k a
+       | _ => None
+       end.
+
+Fixpoint find_handler (h : Z) (rows : list hrow) : option hrow :=
+  match rows with
+  | [] => None
+  | r :: rest => if h_id r =? h then Some r else find_handler h rest
+  end.
+
 Definition handler_op (h : Z) (a : karg) : option op :=
-  let n := event_arg a in
-  if h =? 1 then Some (OBack n)
-  else if h =? 2 then Some (OFwd n)
-  else if h =? 3 then Some (OGoto 0)
-  else if h =? 4 then Some OEnd
-  else if h =? 5 then Some (OAutoUp n true)
-  else if h =? 6 then Some (OAutoDown n true)
-  else if h =? 7 then match a with ANone => None | _ => Some (OGoto (n - 1)) end
-  else if h =? 8 then Some (OAutoUp n false)
-  else if h =? 9 then Some (OAutoDown n false)
-  else if h =? 10 then Some (OAutoUp n false)
-  else if h =? 11 then Some (OAutoDown 1 false)
-  else if h =? 12 then Some (OAutoUp n false)
-  else if h =? 13 then Some (OAutoDown n false)
-  else None.
+  match find_handler h handlers with
+  | Some r =>
+      match a with
+      | ANone => if h_needs_arg r then None else calls_op (h_calls r) a
+      | _ => calls_op (h_calls r) a
+      end
+  | None => None
+  end.
 
 Definition dec_karg (x : sx) : option karg :=
   match x with
